@@ -32,7 +32,7 @@ def shards(tier, seed):
         for b in ("J", "B"):
             out.append({"name": f"n{n}-{b}", "build": b,
                         "params": {"n": n, "bits": bits if b == "J" else min(bits, 14),
-                                   "rand": 4000 if tier == "quick" else 60000}})
+                                   "rand": 4000 if tier == "quick" else 400000}})
     return out
 
 
